@@ -376,5 +376,18 @@ _MORE = {
            "fails is a usable fail file and is judged as one.",
     "C18": "Within every fresh run no two test cases may be identical (fingerprint: a permutation of 24 elements).",
 }
+_MORE5 = {
+    "C01": "Failure kinds include rapid's own panic on a misused Custom generator (its function draws nothing).",
+    "C02": "The matrix includes the failure kind lib-assert (rapid's own panic on a Custom function that draws nothing).",
+    "C03": "FilterSiblings: a chain of 1-7 filters on one base refined by two siblings with predicates of their own.",
+    "C04": "Family big-data: one Check of 40 test cases x 30000 integers; test case #k must draw what its own seed draws alone.",
+    "C08": "-rapid.steps=0 is among the settings (the invariant still runs once); one machine in four names an action 'Check'; every supplied action must be reached in the generate phase.",
+    "C09": "A second kind of child process: test deadline 25 s away (nearer than the 30 s minimisation limit), fast never-failing property: exactly N cases.",
+    "C10": "Cleanup kinds include t.Cleanup(nil) and a cleanup function that draws from a Custom generator (a call made by a cleanup function is an invocation of its own).",
+    "C11": "Behaviours include a nil cleanup registered between two real ones.",
+    "C14": "Family late-first-context: goroutines whose first Context() call comes as the case ends (by return or SkipNow); overlapping workers may keep calling Errorf while the property returns (verdict and races judged, not 'flaky').",
+}
+for _k, _v in _MORE5.items():
+    _MORE[_k] = _MORE.get(_k, "") + " " + _v
 for _k, _v in _MORE.items():
     META[_k]["rule"] += " " + _v
